@@ -727,13 +727,76 @@ fn enum_ops() -> Vec<Value> {
   ops
 }
 
-/// Number of enumerated histories of a tier: all of length 1 and 2 (quick), 1..3 (thorough).
-fn enum_count(tier: Tier) -> u64 {
+/// The operations of the DEEP enumerated part: 17 operations over five models that meet in every way the property
+/// names - A1 / A2 identical keys, C shares A's namespace only, D shares A's name only, F does not build: 4 adds,
+/// 4 replaces, 5 removes (A's own keys, A's namespace with C's name, D's namespace with A's name, D's namespace with
+/// C's name = two partial matches at once, F's keys), clear, deploy, evaluation by A's and by C's name.
+fn deep_enum_ops() -> Vec<Value> {
+  let mut ops = vec![];
+  for m in ["A1", "C", "D", "F"] {
+    ops.push(json!({"op": "add", "m": m}));
+  }
+  for m in ["A2", "C", "D", "F"] {
+    ops.push(json!({"op": "replace", "m": m}));
+  }
+  for (x, y) in [("A1", "A1"), ("A1", "C"), ("D", "A1"), ("D", "C"), ("F", "F")] {
+    ops.push(json!({"op": "remove", "ns": x, "name": y}));
+  }
+  ops.push(json!({"op": "clear"}));
+  ops.push(json!({"op": "deploy"}));
+  for m in ["A1", "C"] {
+    ops.push(json!({"op": "eval", "m": m, "inv": "d"}));
+  }
+  ops
+}
+
+/// Histories of the first enumerated part: all of length 1 and 2 (quick), 1..3 (thorough) over 56 operations.
+fn enum_count_wide(tier: Tier) -> u64 {
   let n = enum_ops().len() as u64;
   match tier {
     Tier::Quick => n + n * n,
     Tier::Thorough => n + n * n + n * n * n,
   }
+}
+
+/// Longest history of the deep enumerated part: every history of length 3..4 (quick) / 3..5 (thorough) over the 17
+/// operations of `deep_enum_ops` (lengths 1 and 2 are covered by the wide part).
+fn deep_enum_lengths(tier: Tier) -> std::ops::RangeInclusive<u32> {
+  match tier {
+    Tier::Quick => 3..=4,
+    Tier::Thorough => 3..=5,
+  }
+}
+
+fn enum_count_deep(tier: Tier) -> u64 {
+  let n = deep_enum_ops().len() as u64;
+  deep_enum_lengths(tier).map(|l| n.pow(l)).sum()
+}
+
+/// Number of enumerated histories of a tier (both parts).
+fn enum_count(tier: Tier) -> u64 {
+  enum_count_wide(tier) + enum_count_deep(tier)
+}
+
+/// The `index`-th history of the deep enumerated part.
+fn deep_enum_history(index: u64, tier: Tier) -> Vec<Value> {
+  let ops = deep_enum_ops();
+  let n = ops.len() as u64;
+  let mut first = 0;
+  for len in deep_enum_lengths(tier) {
+    let count = n.pow(len);
+    if index < first + count {
+      let mut k = index - first;
+      let mut out = vec![Value::Null; len as usize];
+      for pos in (0..len as usize).rev() {
+        out[pos] = ops[(k % n) as usize].clone();
+        k /= n;
+      }
+      return out;
+    }
+    first += count;
+  }
+  vec![]
 }
 
 /// The `index`-th enumerated history (lengths in ascending order, lexicographic within a length).
@@ -819,8 +882,11 @@ impl Sim for C17 {
   }
   fn gen_plan(&self, seed: u64, run: u64, tier: Tier) -> Value {
     // the batch starts with ALL short histories over six representative models, then samples
-    if run < enum_count(tier) {
+    if run < enum_count_wide(tier) {
       return json!({"ops": enum_history(run), "class": "enumerated"});
+    }
+    if run < enum_count(tier) {
+      return json!({"ops": deep_enum_history(run - enum_count_wide(tier), tier), "class": "enumerated-deep"});
     }
     let mut rng = Rng::new(derive(seed, "C17", run));
     // swarm: a subset of the alphabet and of the operation kinds per run
@@ -913,6 +979,9 @@ impl Sim for C17 {
   fn exec(&self, plan: &Value, _mode: &ExecMode) -> Outcome {
     let ops = parr(plan, "ops");
     let mut out = run_history(ops);
+    if pstr(plan, "class") == "enumerated-deep" {
+      out.counters.inc("histories.enumerated_deep");
+    }
     if pstr(plan, "class") == "enumerated" {
       out.counters.inc("histories.enumerated");
     }
@@ -947,7 +1016,7 @@ impl Sim for C17 {
     out
   }
   fn rule_text(&self) -> String {
-    "the batch starts with every history of length 1..2 (quick) / 1..3 (thorough) over 56 operations on six representative models (all namespace/name pairings of remove), then each run = one seeded history of 1..12 workspace operations (add, replace, remove(ns(x),name(y)) for all pairs x,y, clear, deploy, evaluate, restart from a directory with storage faults) over a per-run subset of a 10-model alphabet whose namespaces and names overlap pairwise; generated from VERIF_SEED by xoshiro256**; distinct = distinct operation sequences (hash of the plan), non-trivial = at least two operations".to_string()
+    "the batch starts with every history of length 1..2 (quick) / 1..3 (thorough) over 56 operations on six representative models (all namespace/name pairings of remove), then every history of length 3..4 (quick) / 3..5 (thorough) over 17 operations on five models that meet in every way the property names (identical keys, shared namespace only, shared name only, one that does not build; removes with own keys, with one and with two partial matches); then each run = one seeded history of 1..12 workspace operations (add, replace, remove(ns(x),name(y)) for all pairs x,y, clear, deploy, evaluate, restart from a directory with storage faults) over a per-run subset of a 10-model alphabet whose namespaces and names overlap pairwise; generated from VERIF_SEED by xoshiro256**; distinct = distinct operation sequences (hash of the plan), non-trivial = at least two operations".to_string()
   }
   fn assumptions(&self) -> Vec<String> {
     vec![
